@@ -222,7 +222,8 @@ def snapshot_tomo(t):
             "schedules": [[list(it) for it in s] for s in e.schedules],
             # the operations the experiment holds (the unknown's slot is None): part of what the tomography object *is*
             "experiment": {"states": objs(e.states), "povms": objs(e.povms), "gates": objs(e.gates), "mprocesses": objs(e.mprocesses)},
-            "template": snapshot_qop(t._template_qoperation)}
+            "template": snapshot_qop(t._template_qoperation),
+            "set_qoperations": [len(t._set_qoperations.states), len(t._set_qoperations.povms), len(t._set_qoperations.gates), len(t._set_qoperations.mprocesses)]}
 
 
 def snapshot_dataset(ds):
